@@ -500,6 +500,21 @@ def _maybe_native(out):
 _OPF = {ast.Add: add, ast.Sub: sub, ast.Mult: mul, ast.Div: truediv, ast.FloorDiv: floordiv, ast.Mod: mod, ast.Pow: power}
 
 
+def np_truediv(x, y):
+    """element division of numpy arrays: never raises; x / 0 is inf or nan in numpy -- modelled as an unspecified real
+    (z3's total division is unspecified at 0), an over-approximation for everything except nan-specific comparisons"""
+    from .sym import _conc, _is_inf, as_real_term as _art
+    if _conc(y) and not _is_inf(y) and y == 0:
+        if _conc(x):
+            with np.errstate(all="ignore"):
+                return np.float64(x) / np.float64(0.0)
+        return ctx.PATH.fresh("div0", "r")
+    if (_conc(x) and _conc(y)) or _is_inf(x) or _is_inf(y) or _conc(y):
+        return truediv(x, y)
+    x, y = lift(x), lift(y)
+    return Sym(_art(x) / _art(y), "r", meta=("div", x, y))
+
+
 def _decay(out):
     """numpy arithmetic on 0-d arrays yields scalars"""
     if isinstance(out, np.ndarray) and out.ndim == 0:
@@ -525,6 +540,8 @@ def _np_binop(interp, op, a, b):
         return np_matmul(to_obj_array(a), to_obj_array(b))
     if op in (ast.BitAnd, ast.BitOr):
         f = (lambda x, y: And(x, y)) if op is ast.BitAnd else (lambda x, y: Or(x, y))
+    elif op is ast.Div:
+        f = np_truediv
     else:
         f = _OPF[op]
     A, B = to_obj_array(a), to_obj_array(b)
